@@ -267,6 +267,19 @@ func addOptionalDefaults(t *rapid.T, c *core.Ctx, f *model.File, p float64, o *d
 	}
 }
 
+// maybeStaleLegacy: with probability 1/den the file states its definitions under
+// both container keywords, the legacy one holding an out-of-date copy (other
+// types, no constraints) that no reference names.
+func maybeStaleLegacy(t *rapid.T, c *core.Ctx, f *model.File, den int) {
+	if len(f.Defs) == 0 || f.Spelling.LegacyDefs || f.Spelling.PointerOther {
+		return
+	}
+	if rapid.IntRange(0, den-1).Draw(t, "stalelegacy") == 0 {
+		f.Spelling.BothDefs, f.Spelling.StaleLegacy = true, true
+		c.Count("shape.stale_legacy_definitions")
+	}
+}
+
 // collidingNameSets: definition names that map to one Go identifier.
 var collidingNameSets = [][]string{
 	{"zip-code", "zip_code", "ZipCode"},
